@@ -588,9 +588,9 @@ func init() {
 		Rule:   "Point/LineString/LinearRing/Polygon/MultiPoint/MultiLineString/MultiPolygon in all layouts, built with exact, spare-capacity (flat, ends and every endss row; Reserve) and empty-non-nil storage; clone and clone-of-clone compared by deep bitwise snapshots; mutation histories of 1..20 steps (write every FlatCoords()[i] and the spare capacity, bump every end offset, Push, Reverse, SetCoords, TransformInPlace, Swap, SetSRID, Reserve) applied to any of the three, the other two must keep their snapshot after every step; Coord and Bounds clones with Set/Extend/Set/SetCoords. distinct_nontrivial = distinct (type, layout, storage class, empty) combinations",
 		Assume: []string{"snapshots compare length and bits, never DeepEqual"},
 		Classes: []fw.Class{
-			{Name: "geometries", Quick: 120000, Thorough: 2000000, Run: c16Geoms},
-			{Name: "coord-bounds", Quick: 60000, Thorough: 500000, Run: c16CoordBounds},
-			{Name: "huge", Quick: 48, Thorough: 1200, Chunk: 3, Run: c16Huge},
+			{Name: "geometries", Quick: 120000, Thorough: 8000000, Run: c16Geoms},
+			{Name: "coord-bounds", Quick: 60000, Thorough: 2000000, Run: c16CoordBounds},
+			{Name: "huge", Quick: 48, Thorough: 4800, Chunk: 3, Run: c16Huge},
 		},
 		Require: []string{"storage_spare-capacity", "storage_empty-non-nil", "mut_Push", "mut_write every FlatCoords()[i]", "mut_bump ends", "mut_Reverse", "mut_SetCoords", "mut_TransformInPlace", "mut_Swap with a fresh geometry", "mut_SetSRID", "coord_clones", "bounds_clones", "mut_Bounds.Extend", "mut_Bounds.Set", "mut_Bounds.SetCoords"},
 	})
